@@ -7,6 +7,11 @@ configuration of the grid (the grid is the Init predicate of the model) and
 every job index, with multiprocessing.Process / cpu_count substituted by a
 recorder; TLC (C14_Data.tla) judges the recorded (input, n_runs, result file)
 triples against the property.
+end to end: Pipeline.tla composes the task arithmetic with the resume rule of
+BatchSimulation and the pooling of Analysis; TLC explores job orders, re-runs,
+--delete-existing, tasks stopped early and extended requests; behaviours from
+TLC's simulation are executed on the REAL command (real processes, real result
+files) and the observations are validated by Pipeline_Trace.tla.
 """
 import contextlib
 import io
@@ -123,14 +128,68 @@ def run(tier):
         r['tasks'][0]['nruns'] -= 1
         return r
     common.binding_selftest('c14', 'C14_Data', recs, _corrupt)
-    # collapse: thousands of configurations share one root cause; report keys
+    # ---- end to end: Pipeline.tla on real processes and files
+    from . import pipeline
+    p_ok = common.run_tlc('Pipeline', cfg='Pipeline.cfg' if tier == 'quick' else 'Pipeline_big.cfg',
+                          workers=16, timeout=3000)
+    common.require_ok(p_ok, 'Pipeline')
+    if p_ok['violation']:
+        raise common.MachineryError('Pipeline.tla violates its own properties:\n'
+                                    + p_ok['stdout'][-1500:])
+    p_neg = common.run_tlc('Pipeline', cfg='Pipeline_neg.cfg', workers=4)
+    common.require_ok(p_neg, 'Pipeline negative control')
+    if not p_neg['violation']:
+        raise common.MachineryError('negative control (extension keeps totals) not refuted')
+    behs, _ = pipeline.behaviours(300 if tier == 'quick' else 3000, common.seed() + 1)
+    behs = [pipeline.norm(b) for b in behs]
+    behs = [b for b in behs if any(s['a'] != 'extend' for s in b['steps'])]
+    behs = behs[:160 if tier == 'quick' else 1600]
+    # the counterexample TLC finds for the negative control ExtensionKeepsTotal
+    behs.append({'cfg': {'I': 1, 'N': 1, 'C': 3}, 'T0': 5, 'steps': [
+        {'a': 'job', 'job': 1, 'delete': False, 'trials': 5}, {'a': 'extend', 'trials': 6},
+        {'a': 'job', 'job': 1, 'delete': False, 'trials': 6}]})
+    precs = pipeline.run_all(behs, procs=6)
+    for j, r in enumerate(precs):
+        r['id'] = j
+    prej, pnotes, pst = pipeline.validate(precs)
+    for r in precs:
+        if r['id'] in prej:
+            cl = sorted(prej[r['id']])
+            names = sorted({c.split(':', 1)[1] for c in cl})
+            acts = '+'.join(sorted({s['a'] + ('-delete' if s.get('delete') else '') for s in r['steps']}))
+            v.reject(f"C14:end-to-end:{acts}:" + ','.join(names),
+                     {'cfg': r['cfg'], 'T0': r['T0'], 'steps': r['steps'], 'failed': cl})
+    kinds = {}
+    for i, cl in pnotes.items():
+        for c in cl:
+            kinds.setdefault(c.split(':', 1)[1], []).append(i)
+    for k, ids in sorted(kinds.items()):
+        r = precs[ids[0]]
+        print(f'NOTE: {k} in {len(ids)} replayed behaviours, e.g. cfg={r["cfg"]} T0={r["T0"]} '
+              f'steps={[(s["a"], s.get("job"), s.get("trials")) for s in r["steps"]]} '
+              '(outside the statement of C14; see DESIGN.md)')
+
+    def _pcorrupt(r):
+        for s in r['steps']:
+            if s['a'] == 'job' and not any(x['a'] == 'extend' for x in r['steps']):
+                s['obs']['totals'][0] += 1
+                return r
+        return None
+    common.binding_selftest('c14p', 'Pipeline_Trace', [r for r in precs if r['id'] not in prej],
+                            _pcorrupt, evaluator=lambda ch: pipeline.validate(ch)[::2])
     rc = v.finish()
     common.write_evidence(
         'C14', tier, 'model_checking',
         {
-            'states': m_ok['distinct'] + st['distinct'],
-            'transitions': m_ok['generated'] + st['generated'],
-            'traces_validated_against_impl': len(recs),
+            'states': m_ok['distinct'] + st['distinct'] + p_ok['distinct'] + pst['distinct'],
+            'transitions': m_ok['generated'] + st['generated'] + p_ok['generated'] + pst['generated'],
+            'traces_validated_against_impl': len(recs) + len(precs),
+            'end_to_end': {'pipeline_model_states': p_ok['distinct'],
+                           'behaviours_executed_on_the_real_command': len(precs),
+                           'steps_validated': sum(len(r['steps']) for r in precs),
+                           'rejected': len(prej),
+                           'notes': {k: len(x) for k, x in kinds.items()},
+                           'negative_control_refuted': True},
             'samples': [{k: x for k, x in recs[j].items() if not k.startswith('_')}
                         for j in (0, len(recs) // 2, len(recs) - 1)],
             'evaluations': sum(r['N'] for r in recs),
@@ -146,6 +205,7 @@ def run(tier):
         time.time() - t0, len(v.violations),
         assumptions=['multiprocessing.Process and cpu_count are substituted; '
                      'the arithmetic and file naming are the real command\'s'])
+    print(f'C14 {tier}: end to end {len(precs)} behaviours on the real command, {len(prej)} rejected')
     print(f'C14 {tier}: {len(recs)} configurations driven, {len(rejects)} rejected, '
           f'{time.time()-t0:.1f}s')
     return rc
